@@ -227,9 +227,24 @@ def crossover(rng, undeclared=False):
     return _finish(rng, n, s, [], [], lines)
 
 
+def blocs(rng, undeclared=False):
+    """huge equal blocs behind one leader: vote granularity (multiplier x 10^-p) coarser than omega, surplus that stalls"""
+    n = rng.randint(3, 6); s = rng.randint(1, n - 1)
+    ids = list(range(1, n + 1)); rng.shuffle(ids)
+    lead = ids[0]
+    m = rng.choice([10 ** 5, 10 ** 6, 10 ** 7, 10 ** 7 + 3, 3 * 10 ** 7, 10 ** 8]) + rng.choice([0, 0, 1, 3, 7])
+    lines = []
+    for c in ids[1:rng.randint(2, min(4, n))]:
+        lines.append((m + rng.choice([0, 0, 0, 1]), [lead, c] + ([rng.choice(ids)] if rng.random() < 0.3 else [])))
+    for _ in range(rng.randint(0, 3)):
+        lines.append((rng.choice([1, 2, 5, m // 10, m]), rng.sample(ids, rng.randint(1, n))))
+    lines = [(mm, list(dict.fromkeys(r))) for mm, r in lines]
+    return _finish(rng, n, s, [], [], lines)
+
+
 FAMILIES = {
     'plain': plain, 'on_quota': on_quota, 'symmetric': symmetric, 'few_supported': few_supported,
-    'chains': chains, 'sure_losers': sure_losers, 'big': big, 'crossover': crossover,
+    'chains': chains, 'sure_losers': sure_losers, 'big': big, 'crossover': crossover, 'blocs': blocs,
 }
 
 
